@@ -28,6 +28,21 @@ def inject_error(ch, rng, dm='lua'):
     return True
 
 
+CHILD = ('<invoke type="scxml" id="%(id)s"%(auto)s><content><scxml xmlns="http://www.w3.org/2005/07/scxml" version="1.0" datamodel="null">'
+         '<state id="c1"><onentry><send target="#_parent" event="%(hello)s"/></onentry>%(trans)s</state><final id="cf"/></scxml></content>%(fin)s</invoke>')
+
+
+def add_invokes(ch, rng, dm):
+    """One or two states get an inline invoked session: it greets the parent and finishes at once / on a forwarded event / never; optional
+    <finalize> and autoforward. The parent's monitor must bracket invocation and cancellation outside every micro step."""
+    cands = [s for s in ch.proper() if s.kind != 'final']
+    for k, s in enumerate(rng.sample(cands, min(len(cands), rng.randint(1, 2)))):
+        kind = rng.choice(['now', 'event', 'never'])
+        trans = {'now': '<transition target="cf"/>', 'event': '<transition event="e1 e2" target="cf"/>', 'never': ''}[kind]
+        fin = '<finalize><log label="FIN%d"/></finalize>' % k if rng.random() < 0.5 else ''
+        s.extra_xml = [CHILD % {'id': 'inv%d' % k, 'auto': ' autoforward="true"' if rng.random() < 0.5 else '', 'hello': rng.choice(['child.hello', 'e2', 'i1']), 'trans': trans, 'fin': fin}]
+
+
 def render_fail(ch, dm):
     # 'fail' actions are rendered through the 'xml' kind
     def conv(acts):
@@ -56,6 +71,7 @@ def work(job):
         if mode == 'error':
             if not inject_error(ch, rng, dm): mode = 'plain'
             else: xml = render_fail(ch, dm)
+        if mode == 'invoke': add_invokes(ch, rng, dm)
         if xml is None: xml = C.render(ch, dm)
         for eng in ('large', 'fast'):
             jid = '%s:%s' % (cid, eng)
@@ -84,6 +100,7 @@ def work(job):
         rec['errors_seen'] = sum(1 for l in lines if l.startswith('E error.'))
         rec['finished'] = any(l == 'R -1' for l in lines)
         rec['cancelled'] = any(l == 'R 6' for l in lines)
+        rec['invocations'] = sum(1 for l in lines if l.startswith('IA '))
         rec['hash'] = jid
         if V:
             rule, n, text = V[0]
@@ -109,7 +126,7 @@ def main(tier, replay):
     cases = []
     for i in range(n):
         dm = ('lua', 'promela', 'null')[i % 3] if i % 7 else 'null'
-        mode = ('plain', 'error', 'plain', 'cancel', 'error')[i % 5]
+        mode = ('plain', 'error', 'plain', 'cancel', 'error', 'invoke')[i % 6]
         cases.append(('c%d' % i, base + i, dm, mode))
     jobs = [(binary, cases[i:i + 30]) for i in range(0, len(cases), 30)]
     verd = collections.Counter(); tot = collections.Counter()
@@ -123,6 +140,7 @@ def main(tier, replay):
                 if rec['errors_seen']: tot['runs_with_error_events'] += 1
                 if rec['finished']: tot['runs_finished'] += 1
                 if rec['cancelled']: tot['runs_cancelled'] += 1
+                if rec.get('invocations'): tot['runs_with_invocations'] += 1; tot['invocations'] += rec['invocations']
                 if rec['stats']['microsteps'] > 1: chk.nontrivial(rec['hash'])
             if rec['v'] == 'bad':
                 chk.report(rec['k'], rec['replay'], '%s mode=%s %s' % (rec['id'], rec['mode'], rec['k']))
@@ -130,12 +148,12 @@ def main(tier, replay):
                 chk.sample({'case': rec['id'], 'mode': rec['mode'], 'datamodel': rec['dm'], 'callbacks': rec['stats']['callbacks'], 'microsteps': rec['stats']['microsteps']})
     chk.add('verdicts', dict(verd))
     for k, v in tot.items(): chk.add(k, v)
-    if tot['runs_with_error_events'] < 50 or tot['runs_cancelled'] < 50 or tot['runs_finished'] < 50:
+    if tot['runs_with_error_events'] < 50 or tot['runs_cancelled'] < 50 or tot['runs_finished'] < 50 or tot['runs_with_invocations'] < 50:
         chk.inconc('too few error/cancel/finished runs observed: %s' % dict(tot))
     chk.rule = ('each run = (document, history or API script, engine); all callbacks recorded through InterpreterMonitor are fed to a push-down protocol checker: balanced before/after, '
                 'micro-step phases exits->transitions->entries, nothing outside brackets except event processing/invocation/stable/completion, content inside the bracket of its owner, '
                 'configuration after a micro step explained by reported exits and entries, each log line inside its <log> bracket, exactly one stable notice per macrostep. '
-                'Modes: plain, failing element injected (error path), cancel script. distinct_nontrivial = runs with more than one micro step.')
+                'Modes: plain, failing element injected (error path), cancel script, states with inline invoked sessions (invocation brackets, finalize, autoforward). distinct_nontrivial = runs with more than one micro step.')
     chk.assumptions = ['"executed" is observed through logs/configuration/events only', 'the final exit on completion is reported by the Completion bracket alone (test-lifecycle convention)']
     chk.min_distinct = 100
     chk.finish()
